@@ -65,6 +65,28 @@ def b(x) -> str:
     return "1" if x else "0"
 
 
+class BoolLike:
+    """Stand-in for numpy.bool_: truthy / falsy, but neither `True` nor `False` itself."""
+
+    def __init__(self, v: bool) -> None:
+        self.v = bool(v)
+
+    def __bool__(self) -> bool:
+        return self.v
+
+    def __eq__(self, other) -> bool:
+        return bool(other) == self.v
+
+    def __hash__(self) -> int:
+        return hash(self.v)
+
+    def __repr__(self) -> str:
+        return f"bool_({self.v})"
+
+
+FLAG_FORMS = [bool, BoolLike, int]
+
+
 def make_classes():
     gymnasium, GymAgent, GymEnvironment, Interaction, EnvReset, EnvStep, GymAction = _imports()
 
@@ -88,7 +110,10 @@ def make_classes():
             k = self.n_step
             self.n_step += 1
             t, u = self.flags[k]
-            # reward: a dyadic float, distinct per step; numpy-like bools are not needed here
+            # environments commonly return their episode flags as numpy.bool_ (or 0/1): truthiness is
+            # all gymnasium promises. Every step uses another representation.
+            t, u = (FLAG_FORMS[k % 3](t), FLAG_FORMS[(k + 1) % 3](u))
+            # reward: a dyadic float, distinct per step
             out = (("S", k), k / 4 - 1, t, u, {"step": k})
             self.rec.events.append(f"envStep:{k}:{act_label(action)}:{b(t)}:{b(u)}")
             self.rec.raw.append(("envStep", k, action, out))
@@ -308,20 +333,46 @@ def run_case(case: dict, driver):
         impl.append("ok")
         lines += ["gym obs", "gym need_reset"]
         impl += [show_obs(genv.observe(), EnvReset, EnvStep), b(agent.need_reset)]
-        for _ in range(n):
+        for k in range(n):
             inter.step()
+            if k == n - 1 and case.get("second"):
+                # nobody looks at the environment between the last step and the teardown
+                lines += ["gym step", "gym need_reset"]
+                impl += ["ok", b(agent.need_reset)]
+                continue
             lines += ["gym step", "gym obs", "gym need_reset"]
             impl += ["ok", show_obs(genv.observe(), EnvReset, EnvStep), b(agent.need_reset)]
     else:
         inter.setup()
         for _ in range(n):
             inter.step()
-        lines += [f"gym run {n}", "gym obs", "gym need_reset"]
+        if case.get("second"):
+            lines += [f"gym run {n}", "gym need_reset"]
+            impl += ["ok", b(agent.need_reset)]
+        else:
+            lines += [f"gym run {n}", "gym obs", "gym need_reset"]
+            impl += ["ok", show_obs(genv.observe(), EnvReset, EnvStep), b(agent.need_reset)]
+    cut = len(rec.raw)
+    m = int(case.get("second", 0))
+    if m:
+        # the run is stopped and the same objects are set up again (a second launch in one process):
+        # the new session starts with exactly one reset, whatever the last step of the first one was
+        inter.teardown()
+        inter.setup()
+        lines += ["gym setup", "gym obs", "gym need_reset"]
         impl += ["ok", show_obs(genv.observe(), EnvReset, EnvStep), b(agent.need_reset)]
+        for _ in range(m):
+            inter.step()
+            lines += ["gym step", "gym obs", "gym need_reset"]
+            impl += ["ok", show_obs(genv.observe(), EnvReset, EnvStep), b(agent.need_reset)]
     lines.append("gym log")
     impl.append("[" + ",".join(rec.events) + "]")
 
-    violations = monitor(rec.raw, n, case)
+    violations = monitor(rec.raw[:cut], n, case)
+    if m:
+        violations += [Violation(v.key + ":second-session", v.what, v.case)
+                       for v in monitor(rec.raw[cut:], m, case)]
+    env.closed = 0 if m else env.closed
     if env.closed:
         violations.append(Violation("gym:closed-early", "env.close() called while in use", case))
     disagreement = None
@@ -451,9 +502,16 @@ def random_case(rng, max_len: int) -> dict:
             flags.append(rng.choice(["10", "01", "11"]))
         else:
             flags.append("00")
-    rr = [int(rng.random() < p_req) for _ in range(n + 1)]
-    rs = [int(rng.random() < p_req) for _ in range(n + 1)]
-    return {"flags": flags, "rr": rr, "rs": rs, "n": n,
+    second = rng.randint(1, 6) if rng.random() < 0.25 else 0
+    if second:
+        # the first session often ends on an episode end or a request
+        if rng.random() < 0.6:
+            flags[-1] = rng.choice(["10", "01", "11", "00"])
+        for _ in range(second):
+            flags.append(rng.choice(["10", "01", "11"]) if rng.random() < p_done else "00")
+    rr = [int(rng.random() < p_req) for _ in range(n + second + 2)]
+    rs = [int(rng.random() < p_req) for _ in range(n + second + 2)]
+    return {"flags": flags, "rr": rr, "rs": rs, "n": n, "second": second,
             "user_request": rng.random() < 0.15, "by_id": rng.random() < 0.1,
             "per_step": rng.random() < 0.5}
 
